@@ -196,11 +196,11 @@ func c15RealEach(raw json.RawMessage) any {
 		out.All[k] = s.Image
 	}
 	// GetProfiles returns an unordered list (a reviewed order-leak site of C02): compared as a set, through its sorted view
-	raw := nn(all.GetProfiles())
+	firstProfiles := nn(all.GetProfiles())
 	for i := 0; i < 4 && !out.ProfilesVary; i++ {
-		out.ProfilesVary = !reflect.DeepEqual(nn(all.GetProfiles()), raw)
+		out.ProfilesVary = !reflect.DeepEqual(nn(all.GetProfiles()), firstProfiles)
 	}
-	out.ProfilesOf, out.ProfilesOfAll = nn(p.Services.GetProfiles()), raw
+	out.ProfilesOf, out.ProfilesOfAll = nn(p.Services.GetProfiles()), firstProfiles
 	sort.Strings(out.ProfilesOf)
 	sort.Strings(out.ProfilesOfAll)
 	return out
